@@ -299,3 +299,39 @@ func init() {
 		return cmp(a[0].(Str), a[1].(Str))
 	})
 }
+
+func init() {
+	// the JSON text of an error body is not the subject of any property: Encode writes one placeholder chunk
+	reg("(*encoding/json.Encoder).Encode", func(m *Machine, fr *frame, a []Value) Value {
+		m.stubs["opaque:json.Encoder.Encode (writes a placeholder body)"]++
+		p, _ := a[0].(*Value)
+		if p != nil {
+			if st, ok := (*p).(Struct); ok && len(st) > 0 {
+				if w, ok := st[0].(Iface); ok && w.T != nil {
+					if fn := m.findMethod(w.T, "Write"); fn != nil {
+						m.call(fr, token.NoPos, fn, []Value{w.V, sliceOfStr(CStr("{}\n"))})
+					}
+				}
+			}
+		}
+		return Iface{}
+	})
+}
+
+func init() {
+	reg(vrtPath+".ExpectBackgroundGoroutines", func(m *Machine, fr *frame, a []Value) Value { return nil })
+	reg(vrtPath+".Option", func(m *Machine, fr *frame, a []Value) Value {
+		m.opts[argStr(m, a[0])] = 1
+		return nil
+	})
+	// the LogQL text parser is a participle grammar (reflection): opt-in stub that returns an empty script
+	reg("github.com/metrico/qryn/reader/logql/logql_parser.Parse", func(m *Machine, fr *frame, a []Value) Value {
+		if m.opts["opaque-logql-parser"] != 1 {
+			m.unsupported("logql_parser.Parse (participle grammar) - not executable; hand-build the AST")
+		}
+		m.stubs["opaque:logql_parser.Parse returns an empty script (harness option; a planner plugin replaces the chain)"]++
+		t := m.P.pkgs["github.com/metrico/qryn/reader/logql/logql_parser"].Type("LogQLScript").Object().Type()
+		var cell Value = zero(t)
+		return Tuple{&cell, Iface{}}
+	})
+}
